@@ -547,6 +547,8 @@ def record_space(args) -> List[dict]:
   name, struct, valid, seed, thorough, n_pops, n_seeds, depth2, part = args     # part: population index or 'all'
   space = SpaceC(name, struct, valid)
   rng = random.Random(f'{seed}-{name}')
+  # operators that (wrongly) fall back to the process-wide generator must still give a reproducible run
+  random.seed(f'global-{seed}-{name}-{part}')
   traces = []
   d1 = all_depth1()
   for pi, (dnas, ids, fits) in enumerate(populations(space, rng, n_pops)):
